@@ -16,15 +16,39 @@ from .core import VERIF_DIR, AnalysisError, KnownFindings, Program, Timer, write
 from . import props
 
 
-def run_property(prop_id: str, tier: str, prog: Program, quiet: bool = False):
-    """Run all rules of a property. Returns (results, errors)."""
+class ScopedResult:
+    """View of a RuleResult restricted to the constructs in a property's scope."""
+
+    def __init__(self, res, scope):
+        self.rule = res.rule
+        self.text = res.text
+        self.scope = scope
+        self.obligations = [o for o in res.obligations if props.in_scope(o.construct, scope)]
+        self.findings = [f for f in res.findings if props.in_scope(f.construct, scope)]
+
+
+def rule_list(prop_id: str):
+    if prop_id in props.PROPERTY_RULES:
+        return props.PROPERTY_RULES[prop_id]
+    return props.DEV_GROUPS[prop_id]
+
+
+def run_property(prop_id: str, tier: str, prog: Program, cache=None):
+    """Run all rules of a property. Returns (scoped results, errors)."""
     results = []
     errors = []
-    for rule_name in props.PROPERTY_RULES[prop_id]:
+    cache = cache if cache is not None else {}
+    for rule_name, scope in rule_list(prop_id):
         fn = props.RULES[rule_name]
         try:
-            results.append(fn(prog))
+            if rule_name not in cache:
+                cache[rule_name] = fn(prog)
+            res = cache[rule_name]
+            if isinstance(res, Exception):
+                raise res
+            results.append(ScopedResult(res, scope))
         except AnalysisError as err:
+            cache[rule_name] = err
             errors.append(f"{rule_name}: {err}")
         except RecursionError as err:  # pragma: no cover
             errors.append(f"{rule_name}: analyser recursion: {err}")
@@ -47,7 +71,7 @@ def main(argv=None) -> int:
 
     if args.list:
         for pid, rules in props.PROPERTY_RULES.items():
-            print(pid, " ".join(rules))
+            print(pid, " ".join(r for r, _s in rules))
         return 0
 
     if args.replay:
@@ -56,7 +80,7 @@ def main(argv=None) -> int:
     if not args.property:
         parser.error("property id required")
     prop_id = args.property.upper()
-    if prop_id not in props.PROPERTY_RULES:
+    if prop_id not in props.PROPERTY_RULES and prop_id not in props.DEV_GROUPS:
         print(f"ANALYSIS-ERROR property={prop_id} unknown or not claimed (see MANIFEST not_applicable)")
         return 2
 
